@@ -7,12 +7,19 @@ package main
 //   0    a live gRPC server             1,2,3  ports with nothing listening
 //   4    the address of 1 with a path   (same backend, different URL string ⇒ different pool key)
 //   5    a URL without host             (grpc.DialContext fails: the dial-error branch)
+//   6    the address of 1 as grpcs://   (same backend, TLS scheme ⇒ different pool key)
+//   7    grpcs:// on another dead port  8  the address of 7 with a path
+//   9    http:// on the address of 2    (a target of another protocol: cleanup's hasTarget compares URL
+//                                        strings and does not look at the scheme)
+// Half of the cases run on a pool built with a TLS configuration (a listener with a certificate source: grpcs
+// targets are then dialled with transport credentials), half without.
 // Get only looks at "Shutdown or not", so refused connections serve as well as established ones; the live
 // key is used in one case out of forty only, because every established loopback connection leaves a
 // TIME_WAIT socket behind and a run must not eat the machine's ephemeral ports.
 
 import (
 	"context"
+	"crypto/tls"
 	"encoding/json"
 	"fmt"
 	"net"
@@ -29,7 +36,7 @@ import (
 	"verif/harness/hx"
 )
 
-const poolKeys = 6
+const poolKeys = 10
 
 var (
 	poolOnce sync.Once
@@ -51,6 +58,10 @@ func poolURL(i int) string {
 			fmt.Sprintf("grpc://127.0.0.1:%d", deadPort(2)),
 			fmt.Sprintf("grpc://127.0.0.1:%d/x", deadPort(0)),
 			"grpc:///nohost",
+			fmt.Sprintf("grpcs://127.0.0.1:%d", deadPort(0)),
+			fmt.Sprintf("grpcs://127.0.0.1:%d", deadPort(3)),
+			fmt.Sprintf("grpcs://127.0.0.1:%d/x", deadPort(3)),
+			fmt.Sprintf("http://127.0.0.1:%d", deadPort(1)),
 		}
 	})
 	if i < 0 || i >= len(poolURLs) {
@@ -79,6 +90,7 @@ type PoolOp struct {
 
 type PoolCase struct {
 	Ops []PoolOp `json:"ops"`
+	TLS bool     `json:"tls,omitempty"` // the pool of a listener with a certificate source
 }
 
 func genRoutes(r *hx.Rand, nURL int) []RouteSpec {
@@ -98,7 +110,7 @@ func genRoutes(r *hx.Rand, nURL int) []RouteSpec {
 }
 
 func genPool(r *hx.Rand, i int) interface{} {
-	c := PoolCase{}
+	c := PoolCase{TLS: r.Chance(1, 2)}
 	n := r.Range(3, 14)
 	// a case concentrates on two or three keys so that hits, shutdowns and removals meet
 	lo := 1 // the live key 0 takes part in one case out of forty
@@ -155,6 +167,9 @@ func runPool(raw json.RawMessage) (interface{}, error) {
 	route.SetTable(make(route.Table))
 
 	v := proxy.VerifC16NewPool(proxyConfig(time.Millisecond))
+	if c.TLS {
+		v = proxy.VerifC16NewPoolTLS(&tls.Config{}, proxyConfig(time.Millisecond))
+	}
 	ids := map[*grpc.ClientConn]int{}
 	var conns []*grpc.ClientConn
 	idOf := func(cc *grpc.ClientConn) int {
@@ -302,6 +317,17 @@ func init() {
 			PoolCase{Ops: []PoolOp{{Op: "get", K: 5}, {Op: "get", K: 5}, {Op: "cleanup"}}},
 			// empty table: everything goes
 			PoolCase{Ops: []PoolOp{{Op: "get", K: 0}, {Op: "get", K: 4}, {Op: "cleanup"}, {Op: "get", K: 0}}},
+			// TLS targets: kept while they are in the table like any other, one entry per scheme for one address
+			PoolCase{TLS: true, Ops: []PoolOp{
+				{Op: "table", Routes: []RouteSpec{{Host: "", Path: "/svc.A", URLs: []int{6, 7}}, {Host: "", Path: "/", URLs: []int{9}}}},
+				{Op: "get", K: 6}, {Op: "get", K: 1}, {Op: "get", K: 7}, {Op: "get", K: 8}, {Op: "get", K: 9}, {Op: "cleanup"},
+				{Op: "get", K: 6}, {Op: "get", K: 7}, {Op: "get", K: 9}, {Op: "get", K: 1},
+				{Op: "table", Routes: []RouteSpec{{Host: "", Path: "/", URLs: []int{1}}}}, {Op: "cleanup"}, {Op: "get", K: 6},
+			}},
+			PoolCase{Ops: []PoolOp{
+				{Op: "table", Routes: []RouteSpec{{Host: "a.example", Path: "/", URLs: []int{7, 8}}}},
+				{Op: "get", K: 7}, {Op: "get", K: 8}, {Op: "cleanup"}, {Op: "get", K: 7}, {Op: "get", K: 8},
+			}},
 		},
 	})
 }
